@@ -12,7 +12,7 @@ from common import Infra, run_tlc, Scratch, log
 
 # which P predicates decide which property (PipeProps.Verdicts)
 PREDS = {
-    "C05": ["Prefix", "FoldRes", "Complete", "TakeBound", "CallsPrefix", "CallsComplete", "Settle1"],
+    "C05": ["Prefix", "SeqExact", "FoldRes", "Complete", "TakeBound", "CallsPrefix", "CallsComplete", "Settle1"],
     "C06": ["NoPanic", "Prefix", "FoldRes", "Settle1", "Settle2", "GenExact", "GenSettle", "JoinPerInput", "JoinNothingInvented"],
     "C07": ["Prefix", "Complete", "CallsPrefix", "CallsComplete", "Settle1", "NoPanic", "GenExact", "GenSettle"],
     "C08": ["NeverBlocksSender", "Prefix", "LosslessAfterCancel", "Complete", "Settle1", "NewSettle", "NoPanic"],
@@ -71,7 +71,13 @@ def stage_cfgs(pid, tier, rng):
             if kind not in ("Void", "Take"):
                 mc.append(C(kind=kind, cap=1, mode="pure", pred=[2], monoid="digits9", inputs=[[1, 2]], gate=True))
                 gen.append(C(kind=kind, cap=1, mode="pure", pred=[2], monoid="digits9", inputs=[[1, 2]], gate=True))
-        # Seq / ToSeq are identity on lists: covered by the harness' own Go test (TestSeqToSeq), not by schedules
+        # Seq / ToSeq are identity on lists (no goroutine of their own): driven by random schedules only
+        for inp in ([], [1], [1, 2, 3], [3, 1, 2, 2]):
+            rnd.append(C(kind="Seq", inputs=[inp]))
+            rnd.append(C(kind="ToSeq", cap=len(inp) % 3, inputs=[inp]))
+        # fork.Take / TakeWhile / Seq / ToSeq delegate to pipe
+        rnd += [C(kind="Take", forked=True, cap=1, inputs=[[1, 2, 3, 4]], n=2), C(kind="TakeWhile", forked=True, cap=0, inputs=[[1, 2, 3]], pred=[1, 2]),
+                C(kind="Seq", forked=True, inputs=[[1, 2, 3]]), C(kind="ToSeq", forked=True, cap=1, inputs=[[1, 2, 3]])]
     elif pid == "C06":
         for kind in SEQ_KINDS:
             for cap in [0, 1, 2]:
@@ -422,6 +428,8 @@ def other_cfgs(pid, th, rng):
     if pid == "C08":
         for cap in [0, 1, 2, 3]:
             out.append(C(kind="New", cap=cap, inputs=[list(range(1, 7))]))
+    # fork.Emit / Unfold / Join / Throttling delegate to pipe (through the fork.F -> pipe.F conversion): same expectations
+    out = [dict(c, forked=True) if c["kind"] != "New" and rng.random() < 0.25 else c for c in out]
     return out
 
 
